@@ -4,7 +4,7 @@
    the input event (payload graph, type, time, formatted data) before Process and compares it afterwards, on every
    generated case (observable KMutated of Run_Encrypt).  Proved here: what the forwarded event looks like. *)
 From Coq Require Import List Bool NArith ZArith String.
-From Verif Require Import Tag Encrypt EncryptSpec EncryptProofs.
+From Verif Require Import Tag Encrypt EncryptSpec EncryptProofs Run_Encrypt RunEncryptSound.
 Import ListNotations.
 
 (* shape_preserved: the forwarded payload and the private copy of the input are equal once the contents of string-like
@@ -62,3 +62,22 @@ Theorem C10_nonvacuous :
             erase y = erase (copyz ex_payload) /\ calls cfg0 2%N None ex_payload = Some (2%N, 3%N) /\
             cleanb (c_ov cfg0) 1%N (CTop false) ex_payload = false.
 Proof. exact ex_forwarded_clean. Qed.
+
+(* the tie: what the correspondence check's verdict means.  Run_Encrypt.mismatches evaluates to [] (by vm_compute, on the cases
+   the harness printed) exactly when every case is accepted: the observed outcome of Process is the model's (same event /
+   consumed / error as Encrypt.process says; a forwarded payload agrees with the model's position by position, up to HMACs over
+   texts nobody can recompute), and the observation-only oracles hold (input equal to its snapshot, also after the forwarded
+   event was rewritten; observed payload clean and shape-preserving where theorems no_leak / shape_preserved apply; nothing
+   below unexported fields lost - the known finding F10 is the one oracle the C10 check reports as KNOWN-FINDING).  The C10 check
+   itself looks at the kinds of mismatch that speak about C10, a subset: an empty list is the stronger statement. *)
+Theorem C10_verdict_is_model_execution : forall cs, mismatches cs = [] <-> Forall case_accepted cs.
+Proof. exact RunEncryptSound.mismatches_nil_iff. Qed.
+Print Assumptions C10_verdict_is_model_execution.
+
+(* an accepted forwarded payload is, up to that agreement, the specification applied to the private copy *)
+Theorem C10_accepted_forwarded_is_model : forall e ewi x o fl,
+  e_snaponly e = false -> case_accepted e -> e_payload e = PVal ewi x -> e_obs e = ObOut o fl ->
+  exists m, process (cfg_of e) (e_ekey e) (PVal ewi x) = ROut m /\ agree m o /\
+            m = spec (e_ov e) (key_of (cfg_of e) (e_ekey e) ewi) (CTop false) (copyz x).
+Proof. exact accepted_forwarded_is_model. Qed.
+Print Assumptions C10_accepted_forwarded_is_model.
